@@ -22,7 +22,7 @@ theorem tag_cons_ne (t : UInt8) (ts : Bytes) (b : UInt8) (r : Bytes) (h : t ≠ 
 
 /-- the first byte of a written name is `/`, which no earlier alternative accepts -/
 theorem operand_name_rt (n rest : Bytes) :
-    pOperand (writeObj (.name n) ++ 32 :: rest) = some (.name n, contentSpace (32 :: rest)) := by
+    pOperand (writeObj (.name n) ++ 32 :: rest) = .ok (.name n) (contentSpace (32 :: rest)) := by
   have hn : pName (writeName n ++ 32 :: rest) = some (n, 32 :: rest) :=
     name_rt n (32 :: rest) (by intro b r h; simp at h; obtain ⟨rfl, _⟩ := h; decide)
   simp only [writeObj, pOperand, operandObj]
@@ -32,7 +32,7 @@ theorem operand_name_rt (n rest : Bytes) :
 /-- hexadecimal-string operands: `<` is rejected by every earlier alternative (incl. `name`,
 `literal_string`) -/
 theorem operand_hex_rt (s rest : Bytes) :
-    pOperand (writeObj (.str s .hex) ++ 32 :: rest) = some (.str s .hex, contentSpace (32 :: rest)) := by
+    pOperand (writeObj (.str s .hex) ++ 32 :: rest) = .ok (.str s .hex) (contentSpace (32 :: rest)) := by
   have hs := hexstr_rt s (32 :: rest)
   simp only [writeObj, pOperand, operandObj]
   simp only [writeString, List.cons_append, List.nil_append, List.append_assoc] at hs ⊢
